@@ -104,6 +104,40 @@ func c08(c *Ctx) {
 			return
 		}
 		c.SawFunc(FuncName(ft))
+		// every configured threshold is registered: the constructor fills the table in a loop that covers the
+		// thresholds parameter itself (not a value that may have been replaced or cut down on some path)
+		if nm := w.Func(P, "NewMetricAggregator"); nm != nil {
+			okReg := false
+			eachInstr(nm, func(in ssa.Instruction) {
+				mu, ok := in.(*ssa.MapUpdate)
+				if !ok || !(strings.HasSuffix(pathOf(mu.Map), "percentThresholds") || strings.HasSuffix(mapHome(mu.Map), "percentThresholds")) {
+					return
+				}
+				ld, ok := mu.Key.(*ssa.UnOp)
+				if !ok || ld.Op != token.MUL {
+					return
+				}
+				ia, ok := ld.X.(*ssa.IndexAddr)
+				if !ok {
+					return
+				}
+				if _, isParam := stripConv(ia.X).(*ssa.Parameter); !isParam {
+					return
+				}
+				var ph *ssa.Phi
+				if p, ok := ia.Index.(*ssa.Phi); ok {
+					ph = p
+				} else if b := asBinOp(ia.Index, token.ADD); b != nil {
+					ph, _ = b.X.(*ssa.Phi)
+				}
+				if ph != nil && loopCoversSlice(ph, ia.X) && len(condsFor(mu.Block())) == 1 {
+					okReg = true
+				}
+			})
+			r.Check("thresholds:every-configured-threshold-registered", okReg, nm.Pos(), "NewMetricAggregator registers a name set for every element of its thresholds parameter, unconditionally")
+		} else {
+			r.Unresolved("NewMetricAggregator")
+		}
 		want := map[string][2]string{ // name field -> (flag, value)
 			"count": {"CountPct", "numInThreshold"}, "mean": {"MeanPct", "mean"}, "sum": {"SumPct", "sum"},
 			"sumSquares": {"SumSquaresPct", "sumSquares"}, "upper": {"UpperPct", "thresholdBoundary"}, "lower": {"LowerPct", "thresholdBoundary"},
@@ -515,6 +549,85 @@ func c08(c *Ctx) {
 			}
 		})
 		r.Check("rank:zero-omits-percentile", okSkip, ft.Pos(), "k == 0 skips the percentile")
+	})
+
+	c.Rule("C08.R6", "standard deviation is computed from the deviations: StdDev = sqrt(sum((x - mean)^2) / count) accumulated over the values (the algebraically equal sum(x^2) - mean*sum(x) cancels catastrophically for values that are large relative to their spread and can turn negative -> NaN)", 3, func(r *Rule) {
+		if ft == nil {
+			r.Unresolved("Flush")
+			return
+		}
+		n := 0
+		for _, st := range fieldStores(ft, "Timer", "StdDev") {
+			if k, isC := st.Val.(*ssa.Const); isC && k.Value != nil && k.Value.ExactString() == "0" {
+				continue
+			}
+			n++
+			sq, ok := st.Val.(*ssa.Call)
+			if !ok || !isCall(sq, "math.Sqrt") {
+				r.Fail("stddev:sqrt", st.Pos(), "StdDev is not a square root: "+exprString(st.Val, 0))
+				continue
+			}
+			q := asBinOp(sq.Call.Args[0], token.QUO)
+			if q == nil {
+				r.Fail("stddev:mean-of-squares", st.Pos(), "the argument of Sqrt is not a quotient")
+				continue
+			}
+			// the dividend: a loop accumulator of (v - mean) * (v - mean) with v an element of the values
+			acc, isPhi := q.X.(*ssa.Phi)
+			okAcc, why := false, "the dividend is not accumulated in a loop"
+			if isPhi {
+				for _, e := range acc.Edges {
+					add := asBinOp(e, token.ADD)
+					if add == nil || add.X != ssa.Value(acc) {
+						continue
+					}
+					mul := asBinOp(add.Y, token.MUL)
+					if mul == nil {
+						why = "the accumulated term is not a product"
+						continue
+					}
+					dev := func(v ssa.Value) bool {
+						d := asBinOp(v, token.SUB)
+						if d == nil {
+							return false
+						}
+						ld, ok := d.X.(*ssa.UnOp)
+						if !ok || ld.Op != token.MUL {
+							return false
+						}
+						ia, ok := ld.X.(*ssa.IndexAddr)
+						if !ok || !(strings.HasSuffix(pathOf(ia.X), ".Values") || strings.HasSuffix(pathOf(ptrOrigin(ia.X)), ".Values")) {
+							return false
+						}
+						// the subtrahend is the mean: the value stored into Timer.Mean, or Timer.Mean read back
+						for _, ms := range fieldStores(ft, "Timer", "Mean") {
+							if ms.Val == d.Y {
+								return true
+							}
+						}
+						if ml, ok := d.Y.(*ssa.UnOp); ok && ml.Op == token.MUL {
+							if t, f, _, ok := fieldRef(ml.X); ok && t == "Timer" && f == "Mean" {
+								return true
+							}
+						}
+						return false
+					}
+					if dev(mul.X) && dev(mul.Y) {
+						okAcc = true
+					} else {
+						why = "the accumulated term is not (value - mean) * (value - mean)"
+					}
+				}
+			}
+			r.Check("stddev:sum-of-squared-deviations", okAcc, st.Pos(), "Sqrt(sum((x-mean)^2)/count): "+why)
+			cnt := stripConv(q.Y)
+			okCnt := false
+			if lc, isCl := cnt.(*ssa.Call); isCl && isCall(lc, "builtin len") && strings.HasSuffix(pathOf(lc.Call.Args[0]), ".Values") {
+				okCnt = true
+			}
+			r.Check("stddev:divided-by-count", okCnt, st.Pos(), "the sum of squared deviations is divided by the number of values")
+		}
+		r.Check("stddev:site", n == 1, ft.Pos(), fmt.Sprintf("%d non-constant StdDev stores", n))
 	})
 
 	c.Rule("C08.R5", "count and rates: count = int(round(sampled count)), per-second = sampled count / interval seconds, counter rate = value / interval seconds; values are sorted before indexing", 6, func(r *Rule) {
